@@ -165,6 +165,42 @@ fn raw_core(which: Which, case: &RawCase) -> CaseOutcome
                 ));
             }
         }
+        // independent of the parser: a message that already starts with a valid reference token
+        // must not receive another one in front of it
+        if let Some(new) = pair.after_edit.get(rel)
+        {
+            for i in &ins
+            {
+                if i.kind == TokKind::Msg
+                {
+                    let rest = &new[(i.new_offset + i.len).min(new.len())..];
+                    let rest = String::from_utf8_lossy(&rest[..rest.len().min(24)]).to_string();
+                    if crate::oracle::valid_token(&rest).is_some()
+                    {
+                        devs.push(dev(
+                            "token-inserted-before-existing-reference",
+                            format!("{}: a token was inserted at offset {} directly in front of the valid reference {:?}", rel, i.offset, rest),
+                        ));
+                    }
+                }
+            }
+            // files rendered from the statement model and not mutated: the model knows which statements already carry a reference
+            if let (RawSource::Model(fs), true, false) = (&case.tree.files[idx].source, case.tree.files[idx].mutations.is_empty(), case.pre_edit)
+            {
+                if case.tree.files[idx].repeat <= 1
+                {
+                    let r = render_file(fs, cfg);
+                    let (ds, _) = crate::model_check::check_edit(&r, new);
+                    for d in ds
+                    {
+                        if d.signature.starts_with("edit-touched-") || d.signature.starts_with("decoy-edited")
+                        {
+                            devs.push(dev(&d.signature, format!("{}: {}", rel, d.message)));
+                        }
+                    }
+                }
+            }
+        }
         if classify_file(orig, &ins, mutated, &mut o)
         {
             any_nt = true;
@@ -214,6 +250,7 @@ fn raw_core(which: Which, case: &RawCase) -> CaseOutcome
             devs.retain(|d| {
                 d.signature == "panic"
                     || d.signature == "crash-signal"
+                    || d.signature == "token-inserted-before-existing-reference"
                     || d.signature == "unreadable-file-not-reported"
                     || d.signature == "out-of-scope-file-changed"
                     || d.signature == "edit-vs-parser-mismatch"
